@@ -278,6 +278,9 @@ def target_parser_subcircuit():
             sess.check("frame", s1.pc, z3.And(S1.lo == S0.lo, PR.same_below(S1, S0)), 0, label="stack-is-exactly-the-stack-at-entry (a sub-circuit never takes elements from, or leaves elements in, the enclosing connection)")
             ok = isinstance(val, type(NONE)) or isinstance(val, PR.Tok)
             sess.check("post", s1.pc, z3.BoolVal(ok) if not isinstance(val, PR.Tok) else z3.Or(PR.kind(val.id) == PR.K["Series"], PR.kind(val.id) == PR.K["Parallel"]), 0, label="returns None or a connection")
+            static = s1.ghost.get("static_nodes", [])
+            if isinstance(val, PR.Tok):
+                sess.check("frame", s1.pc, z3.BoolVal(not any(val.id.eq(n_) for n_ in static)), 0, label="the returned connection is a new object of this parse (not one shared between parses / with the class defaults)")
         _check_exits(sess, outs, me, T0, S0, post, "subcircuit")
     return (f"{PR.MOD}:{qual}", PR.MOD, qual, run)
 
